@@ -45,38 +45,7 @@ fn run_ops(img: &[u8], order: usize, nblobs: &[(u64, u64)]) -> Vec<(String, Stri
         _ => ops.iter().chain(ops.iter()).cloned().collect(),
     };
     for op in seq {
-        let res = catch(|| -> std::result::Result<String, ()> {
-            if op == "xml" {
-                Ok(rd.xml().to_string())
-            } else if op == "report" {
-                Ok(json!({"guid": rd.guid(), "pcs": rd.pointclouds().iter().map(pointcloud_tr).collect::<Vec<_>>(),
-                          "images": rd.images().iter().map(image_tr).collect::<Vec<_>>()}).to_string())
-            } else if let Some(i) = op.strip_prefix("raw") {
-                let i: usize = i.parse().unwrap();
-                let mut s = String::new();
-                let it = rd.pointcloud_raw(&pcs[i]).map_err(|_| ())?;
-                for p in it {
-                    let p = p.map_err(|_| ())?;
-                    s.push_str(&point_tr(&p).to_string());
-                }
-                Ok(s)
-            } else if let Some(i) = op.strip_prefix("part") {
-                let i: usize = i.parse().unwrap();
-                let mut it = rd.pointcloud_raw(&pcs[i]).map_err(|_| ())?;
-                match it.next() {
-                    None => Ok("none".into()),
-                    Some(Ok(p)) => Ok(point_tr(&p).to_string()),
-                    Some(Err(_)) => Err(()),
-                }
-            } else if let Some(j) = op.strip_prefix("blob") {
-                let j: usize = j.parse().unwrap();
-                let mut buf = Vec::new();
-                rd.blob(&Blob::new(nblobs[j].0, nblobs[j].1), &mut buf).map_err(|_| ())?;
-                Ok(format!("{:?}", buf))
-            } else {
-                Ok(String::new())
-            }
-        });
+        let res = catch(|| exec_op(&mut rd, &op, &pcs, nblobs));
         let o = match res {
             Ok(Ok(s)) => s,
             Ok(Err(())) => "err".to_string(),
@@ -85,6 +54,70 @@ fn run_ops(img: &[u8], order: usize, nblobs: &[(u64, u64)]) -> Vec<(String, Stri
         out.push((op, o));
     }
     out
+}
+
+/// one read operation on a live reader; Ok(canonical text of the result) or Err(())
+pub fn exec_op(rd: &mut E57Reader<Dev>, op: &str, pcs: &[PointCloud], nblobs: &[(u64, u64)]) -> std::result::Result<String, ()> {
+    if op == "xml" {
+        Ok(rd.xml().to_string())
+    } else if op == "report" {
+        Ok(json!({"guid": rd.guid(), "pcs": rd.pointclouds().iter().map(pointcloud_tr).collect::<Vec<_>>(),
+                  "images": rd.images().iter().map(image_tr).collect::<Vec<_>>()}).to_string())
+    } else if let Some(i) = op.strip_prefix("raw") {
+        let i: usize = i.parse().unwrap();
+        let mut s = String::new();
+        let it = rd.pointcloud_raw(&pcs[i]).map_err(|_| ())?;
+        for p in it {
+            let p = p.map_err(|_| ())?;
+            s.push_str(&point_tr(&p).to_string());
+        }
+        Ok(s)
+    } else if let Some(i) = op.strip_prefix("part") {
+        // iterator only partly consumed, then dropped
+        let (i, k) = i.split_once('_').unwrap_or((i, "1"));
+        let i: usize = i.parse().unwrap();
+        let k: usize = k.parse().unwrap();
+        let mut it = rd.pointcloud_raw(&pcs[i]).map_err(|_| ())?;
+        let mut s = String::new();
+        for _ in 0..k {
+            match it.next() {
+                None => { s.push_str("none"); break; }
+                Some(Ok(p)) => s.push_str(&point_tr(&p).to_string()),
+                Some(Err(_)) => return Err(()),
+            }
+        }
+        Ok(s)
+    } else if let Some(i) = op.strip_prefix("simple") {
+        let i: usize = i.parse().unwrap();
+        let mut s = String::new();
+        let it = rd.pointcloud_simple(&pcs[i]).map_err(|_| ())?;
+        for p in it {
+            let p = p.map_err(|_| ())?;
+            s.push_str(&format!("{:?}", p));
+        }
+        Ok(s)
+    } else if let Some(i) = op.strip_prefix("spart") {
+        let (i, k) = i.split_once('_').unwrap_or((i, "1"));
+        let i: usize = i.parse().unwrap();
+        let k: usize = k.parse().unwrap();
+        let mut it = rd.pointcloud_simple(&pcs[i]).map_err(|_| ())?;
+        let mut s = String::new();
+        for _ in 0..k {
+            match it.next() {
+                None => { s.push_str("none"); break; }
+                Some(Ok(p)) => s.push_str(&format!("{:?}", p)),
+                Some(Err(_)) => return Err(()),
+            }
+        }
+        Ok(s)
+    } else if let Some(j) = op.strip_prefix("blob") {
+        let j: usize = j.parse().unwrap();
+        let mut buf = Vec::new();
+        rd.blob(&Blob::new(nblobs[j].0, nblobs[j].1), &mut buf).map_err(|_| ())?;
+        Ok(format!("{:?}", buf))
+    } else {
+        Ok(String::new())
+    }
 }
 
 fn statics(img: &[u8]) -> (String, String) {
